@@ -363,3 +363,9 @@ PROPS["C02"] = dict(run=c02.run, replay=c02.replay)
 # objects): the expectation holds for every render, and what the engine keeps between renders must not show
 for _p in ("C03", "C04", "C06", "C07", "C08", "C09", "C10", "C11", "C12", "C13", "C14", "C17", "C18", "C19"):
     PROPS[_p].setdefault("args", ("-again", "1"))
+
+# while the cases of these properties are replayed, the traffic of the engine's render-context pools is recorded (verif
+# hooks) and validated by Trace_Pool.tla against PoolDiscipline: an object is with one user or in its pool, is given back
+# once and empty, a context starts clean, the caller's maps never enter a pool
+for _p in ("C06", "C09", "C10", "C11", "C12", "C17", "C18"):
+    PROPS[_p]["pooltrace"] = True
